@@ -803,7 +803,7 @@ func clipRows(rows [][]val.Val) string {
 
 func TestC17Analytic(t *testing.T) {
 	fw.Run(t, fw.Spec[anaCase]{
-		ID: "C17", Name: "analytic", Quick: 10000, Thorough: 200000,
+		ID: "C17", Name: "analytic", Quick: 24000, Thorough: 480000,
 		Gen: genCase, Check: checkCase,
 		Rule: "temporary table (unique id, partition columns with few values + NULL + single-row partitions, order columns with ties and NULLs, integer and string value columns with NULLs; 15% of tables have 160-230 rows and run with --cpu 2-4) x one analytic call (ROW_NUMBER, RANK, DENSE_RANK, CUME_DIST, PERCENT_RANK, NTILE, FIRST/LAST/NTH_VALUE [IGNORE NULLS], LAG/LEAD [offset, default, IGNORE NULLS], COUNT/SUM/AVG/MIN/MAX/MEDIAN [DISTINCT], LISTAGG, JSON_AGG, two user-defined aggregates) OVER (PARTITION BY 0-2, ORDER BY 0-2 [+id], ROWS frames of the documented grammar); the result column is compared by id with a reference evaluator written from the manual, the other columns and the row count must be unchanged; non-trivial = at least two partitions with two or more rows and (ties under the user ORDER BY items or a bounded frame); distinct by (function, #partition items, #order items, id key, frame shape, ties, IGNORE NULLS, DISTINCT)",
 		Assumptions: []string{
